@@ -300,6 +300,10 @@ def _analyse_target(case, tier, props, p, meta, tdir, res, tr, jac_terms, seed):
                 _replay_fex(case, p, meta, tdir, res, "C01", name, i, fex, m, slots, NS, thermal, nat, seed)
             else:
                 _unk(res, "C01", name, "solver " + r)
+        # cusparse: the kernel walks several cells; the second cell must obey the same law with *its* abundances,
+        # parameters and helper values (one thread, two systems)
+        if kind == "cusparse" and NS >= 1 and NR >= 1:
+            _c01_second_cell(case, p, tdir, res, fex, ref, q, NEQ, tag)
         # canary: a perturbed reference must be distinguishable
         if NR >= 1 and NS >= 1 and fex.ydot[0] is not None and any(rs or ps for rs, ps in rx):
             tgt = next((slots[a] for rs, ps in rx for a in rs + ps), 0)
@@ -336,6 +340,72 @@ def _analyse_target(case, tier, props, p, meta, tdir, res, tr, jac_terms, seed):
         if "C03" in props:
             _c03_target(case, p, meta, tdir, res, fex, jac, J, structural, q, NEQ, NNZ, NR, NH, NC, tag, kind)
     res["solver_s"] += q.time
+
+
+def _c01_second_cell(case, p, tdir, res, fex, ref, q, NEQ, tag):
+    fex2 = ode.run_fex(p, tdir, nsystem=2)
+    if fex2.compile_errors or len(fex2.ydot) != 2 * NEQ:
+        _unk(res, "C01", f"{tag}:cell1", "two-system run unavailable")
+        return
+    off = 8 * NEQ
+    pairs = [(fex.y[i], fex2.y[NEQ + i]) for i in range(NEQ)]
+    pairs += [(v, z3.Real(f"{v}_1")) for v in fex.data.values() if is_sym(v) and z3.is_const(v)]
+    helper_syms = set()
+    for t in ref:
+        if is_sym(t):
+            for a in _consts(R(t)):
+                nm = str(a)
+                if nm.startswith("Get") and "@" not in nm:
+                    helper_syms.add(nm)
+    pairs += [(z3.Real(nm), z3.Real(f"{nm}@{off}")) for nm in sorted(helper_syms)]
+    q.s.push()
+    q.s.add(z3.Real(f"GetNumDens@{off}") != 0)
+    for i in range(NEQ):
+        name = f"{tag}:cell1:ydot[{i}]"
+        got = fex2.ydot[NEQ + i]
+        if got is None or ref[i] is None:
+            continue
+        want = z3.substitute(R(ref[i]), *pairs) if is_sym(ref[i]) else ref[i]
+        r, m = q.differs(got, want)
+        if r == "unsat":
+            _ok(res, "C01")
+        elif r == "sat":
+            # native replay: two systems with identical abundances whose GetNumDens differs by a factor 2
+            rp_extra = {}
+            try:
+                import random as _rnd
+
+                rr_ = _rnd.Random(i)
+                pt = point_from_model(None, fex, rr_)
+                out = native_eval(native.NativeEval(p, tdir), pt)
+                a0, a1 = out["ydot"].get(i), out.get("cell1", {}).get(i)
+                uses_npar = any(str(c_) == "GetNumDens" for c_ in _consts(R(ref[i]))) if is_sym(ref[i]) else False
+                exp1 = a0 / 2.0 if uses_npar else a0
+                res["replays"] += 1
+                rp_extra = {"native_cell0": a0, "native_cell1": a1, "expected_cell1": exp1, "point": pt}
+                if a0 is not None and a1 is not None and native.close(a1, exp1, 1e-9, 1e-300):
+                    _unk(res, "C01", name, "solver says the second system differs; the native two-system run agrees with the law")
+                    continue
+            except Exception as e:  # replay unavailable: keep the symbolic evidence
+                rp_extra = {"native_replay": f"unavailable: {type(e).__name__}: {str(e)[:160]}"}
+            _viol(res, "C01", f"{case.name}/{tdir}:second-cell:{'thermal-row' if i >= NEQ - 1 and NEQ > len(fex.y) - 1 else 'slot'}:{i}", f"cusparse kernel, second system: derivative {i} is {str(z3.simplify(R(got)))[:220]} but the law with that system's own abundances, parameters and helper values gives {str(z3.simplify(R(want)))[:220]}",
+                  {"case": case.name, "target": tdir, "slot": i, "emitted": str(z3.simplify(R(got)))[:600], "law": str(z3.simplify(R(want)))[:600], "spec": _small_spec(case), **rp_extra, "replay_note": "terms of the compiled FexKernel run by one thread over two systems; a helper value or parameter of system 0 in system 1's derivative is visible in the emitted kernel text (y instead of y_cur)"})
+        else:
+            _unk(res, "C01", name, "solver " + r)
+    q.s.pop()
+
+
+def _consts(t):
+    seen, out, stack = set(), [], [t]
+    while stack:
+        e = stack.pop()
+        if e.get_id() in seen:
+            continue
+        seen.add(e.get_id())
+        if z3.is_const(e) and e.decl().kind() == z3.Z3_OP_UNINTERPRETED:
+            out.append(e)
+        stack.extend(e.children())
+    return out
 
 
 def classify_compile_error(err):
@@ -584,7 +654,139 @@ def _replay_jac(case, p, tdir, res, name, i, j, run, model, nat, seed, kind):
 
 
 # --------------------------------------------------------------------------- C03
+def cusparse_driver(p, tdir, nsystem):
+    """Naunet::Init then Naunet::Reset of the cusparse driver (naunet.cpp) executed over the object state with
+    the CUDA / cuSPARSE / SUNDIALS calls as recording stubs (all set-up calls succeed).  Returns per call the
+    matrices held in cv_a_[0..n_stream_in_use_), how each was allocated, which were handed to InitJac and to the
+    linear solver."""
+    import re as _re
+
+    from . import harness as H
+    from .checks import c19
+    from .irsym import Machine, Ptr, State
+
+    ll, err = p.compile_ir(tdir, "naunet.cpp", extra_flags=("-include", ode.H_SHIM_CUDA), pre=ode.cuda_pre, tag="cu")
+    if ll is None:
+        raise Inconclusive("cusparse naunet.cpp does not lower: " + err[-200:])
+    M = Machine([ll], H.base_stubs())
+    M.opaque_indirect = True  # virtual destructors of the execution policies
+    dem = H.demangle(sorted(M.funcs))
+    fields = c19.class_fields(p, tdir)
+    offs, size, _ = M.struct_layout("%class.Naunet")
+    if len(fields) != len(offs) or "cv_a_" not in fields or "n_stream_in_use_" not in fields:
+        raise Inconclusive("class Naunet (cusparse) layout not recognised")
+    fo = {n: o for n, (o, _) in zip(fields, offs)}
+    rec = {"new": [], "init": [], "ls": [], "n": 0}
+
+    def new(prefix, st, sz=8):
+        rec["n"] += 1
+        o = f"{prefix}{rec['n']}"
+        st.size[o], st.mem[o] = sz, {}
+        return Ptr(o, 0)
+
+    def newmat(M_, st, a):
+        ptr = new("mat", st)
+        rec["new"].append((ptr.obj, list(a[:4])))
+        return st, ptr
+
+    def initjac(M_, st, a):
+        rec["init"].append(a[0].obj if isinstance(a[0], Ptr) else None)
+        return st, 0
+
+    def linsol(M_, st, a):
+        rec["ls"].append(a[1].obj if isinstance(a[1], Ptr) else None)
+        return st, new("ls", st)
+
+    noop = lambda M_, st, a: (st, 0)
+
+    def outptr(i, prefix):
+        def f(M_, st, a):
+            st.store(a[i].obj, a[i].off, new(prefix, st, 1 << 20))
+            return st, 0
+
+        return f
+
+    M.stubs.update({"SUNMatrix_cuSparse_NewBlockCSR": newmat, "SUNLinSol_cuSolverSp_batchQR": linsol, "SUNMatrix_cuSparse_SetFixedPattern": noop, "SUNMatDestroy": noop, "SUNLinSolFree": noop,
+                    "N_VDestroy": noop, "N_VNew_Cuda": lambda M_, st, a: (st, new("nv", st)), "N_VSetKernelExecPolicy_Cuda": noop, "cudaFreeHost": noop, "cudaMallocHost": outptr(0, "host"),
+                    "cudaStreamCreate": outptr(0, "stream"), "cusparseCreate": outptr(0, "cusp"), "cusolverSpCreate": outptr(0, "cusol"), "cusparseSetStream": noop, "cusolverSpSetStream": noop,
+                    "SUNContext_Create": outptr(1, "ctx"), "fopen": lambda M_, st, a: (st, Ptr("errfp", 0)), "_Znwm": lambda M_, st, a: (st, new("heap", st, 64)), "_ZdlPv": noop})
+    entry = {}
+    for n, d in dem.items():
+        if d.startswith("Naunet::Init("):
+            entry["Init"] = n
+        elif d.startswith("Naunet::Reset("):
+            entry["Reset"] = n
+    if len(entry) != 2:
+        raise Inconclusive("Naunet::Init / Naunet::Reset not found")
+    calls = set()
+    for fname in entry.values():
+        for b in M.funcs[fname].blocks.values():
+            for I in b:
+                if I.op in ("call", "invoke"):
+                    m = _re.search(r"@([\w.$]+)\(", I.text)
+                    if m:
+                        calls.add(m.group(1))
+    for n, d in H.demangle(sorted(calls)).items():
+        if (d or "").startswith("InitJac("):
+            M.stubs[n] = initjac
+        elif "ExecPolicy::SUNCuda" in (d or ""):
+            M.stubs[n] = noop
+    st = State()
+    st.size["this"], st.mem["this"] = size, {}
+    st.size["errfp"] = 8
+    out = {}
+    for which in ("Init", "Reset"):
+        rec["new"].clear(), rec["init"].clear(), rec["ls"].clear()
+        _, ret = M.run_function(entry[which], st, [Ptr("this", 0), nsystem, z3.Real("atol"), z3.Real("rtol"), 500])
+        nst = st.load("this", fo["n_stream_in_use_"])
+        if not isinstance(nst, int):
+            raise Inconclusive("n_stream_in_use_ is not concrete")
+        mats = [st.load("this", fo["cv_a_"] + 8 * i) for i in range(nst)]
+        out[which] = {"ret": ret, "streams": nst, "held": [m.obj if isinstance(m, Ptr) else None for m in mats], "allocated": list(rec["new"]), "initjac": list(rec["init"]), "linsol": list(rec["ls"])}
+    return out
+
+
+def _c03_driver(case, p, tdir, res, NEQ, NNZ, tag):
+    """cusparse only: the block-CSR matrices the driver hands to the solver have the declared shape and carry the
+    generated pattern (InitJac) -- after Init and again after every Reset"""
+    macros = p.macros(tdir)
+    nstreams = macros.get("NSTREAMS", 1)
+    for nsystem in sorted({4, 32 * nstreams}):
+        try:
+            out = cusparse_driver(p, tdir, nsystem)
+        except Inconclusive as e:
+            _unk(res, "C03", f"{tag}:driver(nsystem={nsystem})", str(e)[:200])
+            continue
+        res["functions"] += [f"{tdir}:Naunet::Init", f"{tdir}:Naunet::Reset"]
+        for which, o in out.items():
+            name = f"{tag}:{which}(nsystem={nsystem})"
+            alloc = dict(o["allocated"])
+            bad = None
+            if o["ret"] != 0:
+                bad = f"returns {o['ret']} although every set-up call succeeds"
+            elif not o["held"] or any(h is None for h in o["held"]):
+                bad = "leaves a stream without a matrix"
+            else:
+                for h in o["held"]:
+                    if h not in alloc:
+                        bad = "keeps a matrix that this call did not allocate (stale or destroyed object)"
+                    elif list(alloc[h][1:4]) != [NEQ, NEQ, NNZ]:
+                        bad = f"allocates a block-CSR matrix of shape {alloc[h][1:4]} instead of (NEQUATIONS, NEQUATIONS, NNZ) = ({NEQ}, {NEQ}, {NNZ})"
+                    elif h not in o["initjac"]:
+                        bad = "hands the solver a freshly allocated block-CSR matrix whose row pointers and column indices were never written (InitJac is not called on it)"
+                    elif h not in o["linsol"]:
+                        bad = "builds the linear solver with another matrix than the one it keeps"
+                    if bad:
+                        break
+            if bad:
+                _viol(res, "C03", f"{case.name}/{tdir}:driver:{which}", f"cusparse Naunet::{which} {bad}", {"case": case.name, "target": tdir, "call": which, "nsystem": nsystem, "trace": {k: str(v)[:300] for k, v in o.items()}, "replay_note": "call sequence read from the symbolic execution of the compiled naunet.cpp (all set-up calls succeeding)"})
+            else:
+                _ok(res, "C03")
+
+
 def _c03_target(case, p, meta, tdir, res, fex, jac, J, structural, q, NEQ, NNZ, NR, NH, NC, tag, kind):
+    if kind == "cusparse" and NNZ:
+        _c03_driver(case, p, tdir, res, NEQ, NNZ, tag)
     # (c) bounds: every access of Fex and Jac stayed inside the declared sizes
     for run, nm in ((fex, "Fex"), (jac, "Jac")):
         if run is None:
